@@ -11,7 +11,7 @@ EXPLANATION = ('Object, PSF and transfer-function arrays have independent symbol
                'product; callables of (fx,fy,fr,ft) are polynomial maps of the exact frequency grids. For the MTF the PSF samples are '
                'non-negative field-level symbols: MTF[n//2]=1, point symmetry, OTF = MTF*exp(i*PTF), and MTF<=1 as a solver-decided inequality.')
 BOUNDS = {'quick': "conv / transfer functions: shapes in [1..4]^2 (subset incl. non-square, odd/even); MTF identities shapes up to 3x3, inequality up to 2x3; the library's jitter transfer function as a callable in lists (2x3); OTF/MTF/PTF on 4x2 and 2x4",
-          'thorough': 'shapes [1..5]^2; MTF identities up to 4x4, inequality up to 3x3; library callables on 3 shapes'}
+          'thorough': 'the quick shapes plus 1x3, 3x1, 2x4, 4x2, 1x5, 5x1; MTF identities up to 4x4, inequality up to 3x3; library callables on 3 shapes'}
 OUTSIDE = 'degredations.py, objects.py, detector.olpf_ft/pixel_ft (consumers of the same routines); float rounding'
 NDERIVED = 40
 MAX_PATHS = 8
@@ -20,8 +20,9 @@ CFG_TIMEOUT = {'quick': 900, 'thorough': 3600}
 
 def configs(tier):
     q = tier == 'quick'
-    shapes = [(1, 1), (1, 2), (2, 2), (2, 3), (3, 2), (3, 3), (4, 3), (4, 4)] if q else \
-        [(a, b) for a in range(1, 6) for b in range(1, 6) if a * b <= 9]        # sized for about half an hour on 16 cores
+    shapes = [(1, 1), (1, 2), (2, 2), (2, 3), (3, 2), (3, 3), (4, 3), (4, 4)]
+    if not q:
+        shapes += [(1, 3), (3, 1), (2, 4), (4, 2), (1, 5), (5, 1)]      # larger sets did not finish in 45 minutes on 16 cores
     out = []
     for (m, n) in shapes:
         out.append({'name': 'conv-algebra-%dx%d' % (m, n), 'kind': 'conv', 'shape': [m, n]})
